@@ -616,6 +616,34 @@ class ExecutionState:
                 error_msg = "Parent context completed, child operation cannot continue"
                 raise OrphanedChildException(error_msg, operation_id=operation_id)
 
+    def raise_if_in_orphaned_branch(self, parent_id: str | None) -> None:
+        """Raise OrphanedChildException if the branch this operation belongs to has been orphaned.
+
+        Asked on entry of every operation, whether it is new, resumed, answered from its record or
+        only traversed again. Enclosing contexts that are recorded SUCCEEDED are replay themselves
+        (a summarised body that runs again; everything beneath a context that completed normally
+        is marked as done, which says nothing about the branch traversing it); the nearest
+        enclosing context that is still open is the branch doing the work: the operation is
+        orphaned if and only if that one is.
+        """
+        current = parent_id
+        seen: set[str] = set()
+        while current:
+            if current in seen:
+                return
+            seen.add(current)
+            with self._operations_lock:
+                recorded = self.operations.get(current)
+            if recorded is None or recorded.status is not OperationStatus.SUCCEEDED:
+                break
+            current = recorded.parent_id
+        if not current:
+            return
+        with self._parent_done_lock:
+            if self._has_completed_ancestor(current):
+                error_msg = "Parent context completed, child operation cannot continue"
+                raise OrphanedChildException(error_msg, operation_id=current)
+
     def _has_completed_ancestor(self, parent_id: str | None) -> bool:
         """True if any enclosing context completed (or was orphaned) in this invocation.
 
